@@ -23,10 +23,12 @@ verify)
   ;;
 check)
   prop=$4; tier=${5:-quick}
-  cd /repo && git apply $d/patch.diff || { echo "APPLY-FAILED"; exit 1; }
-  cd /verif && timeout 3000 ./bin/check $prop --tier $tier 2>&1 | grep -E "^VIOLATION|^KNOWN|^OK|^INCONCLUSIVE|harness=" | cut -c1-260 | head -12
+  # the seeded change is applied inside its own scratch worktree and the engine is pointed there
+  # (VERIF_REPO); /repo is never touched and the evidence of /repo is not rewritten
+  cd $wt && git checkout -q -- . && git apply $d/patch.diff || { echo "APPLY-FAILED"; exit 1; }
+  cd /verif && VERIF_REPO=$wt timeout 3000 ./bin/check $prop --tier $tier 2>&1 | grep -E "^VIOLATION|^KNOWN|^OK|^INCONCLUSIVE|harness=" | cut -c1-260 | head -12
   echo "exit=${PIPESTATUS[0]}"
-  cd /repo && git checkout -q -- . && git status --short | grep -v merkletree.db
+  cd $wt && git checkout -q -- . && git status --short | grep -v mutants/
   ;;
 keep)
   prop=$4; name=$5
